@@ -135,3 +135,61 @@ func Verif_C20_CallHistory(k, n1, n2 int) {
 	verifsym.Observe("b", b)
 	verifsym.Reach("end")
 }
+
+// Verif_C20_LongPrefix: an irregular word (number w, letters symbolically lower
+// or upper case) behind a LONG prefix: `fill` concrete filler bytes
+// ("some-long_prefix " style text containing separators and another irregular
+// word) in which one byte at a case-split position is an arbitrary byte that
+// keeps the prefix valid UTF-8, followed by one symbolic separator byte that is
+// not a word character: the whole prefix is preserved and the word inflected as
+// on its own.
+func Verif_C20_LongPrefix(k, w, fill int) {
+	r := vRule(k)
+	verifsym.Assume(w < len(r.Irregular))
+	word := r.Irregular[w].Word
+	wb := make([]byte, len(word))
+	for i := range wb {
+		c := verifsym.Byte()
+		verifsym.Assume(c|0x20 == word[i])
+		wb[i] = c
+	}
+	filler := []byte("an old-person_and 3 men ate news-worthy rice; ")
+	verifsym.Assume(fill <= len(filler))
+	pb := append([]byte(nil), filler[:fill]...)
+	pb[verifsym.IntRange(0, fill-1)] = verifsym.Byte()
+	sep := verifsym.Byte()
+	verifsym.Assume(sep < 0x80)
+	verifsym.Assume(!vIsWordByte(sep))
+	prefix := string(pb) + string([]byte{sep})
+	verifsym.Assume(utf8.ValidString(prefix))
+	alone := r.inflected(string(wb))
+	with := r.inflected(prefix + string(wb))
+	verifsym.Assert(with == prefix+alone, "text before the irregular word is not preserved / the word is inflected differently than on its own")
+	verifsym.Observe("with", with)
+	verifsym.Reach("end")
+}
+
+// Verif_C20_TotalLong: inflection of long inputs: `fill` concrete filler bytes
+// with two arbitrary bytes at case-split positions (valid UTF-8 assumed): no
+// panic, and the memoised result equals the computed one.
+func Verif_C20_TotalLong(k, fill int) {
+	filler := []byte("sea-bass and Portuguese octopus quizzes")
+	verifsym.Assume(fill <= len(filler))
+	b := append([]byte(nil), filler[len(filler)-fill:]...)
+	i := verifsym.IntRange(0, fill-2)
+	j := verifsym.IntRange(i+1, fill-1)
+	b[i], b[j] = verifsym.Byte(), verifsym.Byte()
+	s := string(b)
+	verifsym.Assume(utf8.ValidString(s))
+	r := vRule(k)
+	r.cache.Clear()
+	out := ""
+	panicked := verifsym.Panics(func() { out = r.inflected(s) })
+	verifsym.Assert(!panicked, "inflection panics")
+	if panicked {
+		return
+	}
+	verifsym.Assert(r.Inflected(s) == out && r.Inflected(s) == out, "memoised result differs from the computed one")
+	verifsym.Observe("out", out)
+	verifsym.Reach("end")
+}
